@@ -879,6 +879,85 @@ func runC17(c *core.Ctx) {
 	}
 
 	// the escaping function field is only written by Init-like configuration and is never nil-unsafe: every call of escapingFunc is reached with a field set in Init
+	c.Rule("C17.noappendcaller", "the caller's buffers are read, not written: in the storage packages no append takes as its base a slice that came in through a parameter (or an element of one) - appending writes into the spare capacity of the caller's array, so blobs that are sub-slices of one buffer are overwritten before they are stored", 0)
+	for _, fn := range p.ModFns {
+		pk := core.FuncPkg(fn)
+		if pk == nil || len(fn.Blocks) == 0 || fn.Synthetic != "" {
+			continue
+		}
+		rel := core.RelPkg(pk.Path())
+		if !(strings.HasPrefix(rel, "storage") && !strings.Contains(rel, "adapter") && !strings.Contains(rel, "tests") && !strings.Contains(rel, "benchmarks")) && rel != "linking/cid" && rel != "linking" {
+			continue
+		}
+		n := 0
+		for _, ci := range core.Calls(fn) {
+			bi, ok := ci.Common().Value.(*ssa.Builtin)
+			if !ok || bi.Name() != "append" || len(ci.Common().Args) == 0 {
+				continue
+			}
+			base := ci.Common().Args[0]
+			if _, isByteSlice := base.Type().Underlying().(*types.Slice); !isByteSlice {
+				continue
+			}
+			from := ""
+			for w := range core.BackSlice(base, core.SliceOpts{Local: true}) {
+				if prm, ok := w.(*ssa.Parameter); ok {
+					if _, isSlice := prm.Type().Underlying().(*types.Slice); isSlice && prm.Parent() == fn {
+						from = prm.Name()
+					}
+				}
+				// own result of an earlier append onto a fresh base is fine: only report when a parameter is at the root
+			}
+			if from == "" {
+				continue
+			}
+			// a base cut to zero length and zero capacity (x[:0:0]) or a nil conversion is fresh; a 3-index slice with max == len is too
+			if sl, ok := core.Strip(base).(*ssa.Slice); ok && sl.Max != nil {
+				continue
+			}
+			n++
+			c.Fail(fmt.Sprintf("%s#append-onto-parameter/%d", core.FuncKey(fn), n), p.Pos(ci.Pos()), "append writes into a slice that came in through parameter "+from+": when that slice has spare capacity (a sub-slice of a larger buffer) the caller's memory behind it is overwritten - other blobs of the same call, or data the caller still uses")
+		}
+	}
+
+	c.Rule("C17.existsofrename", "\"something is already there\" is said by the rename and by nothing else: in fsstore, where a function that renames the staged file into place tests an error with os.IsExist (and then drops the staged file and reports success - the store is write-once), that error is the result of os.Rename on every incoming path, never the error of making the shard directory or of anything else - EEXIST from a concurrent mkdir would otherwise delete the staged block and report a put that stored nothing", 1)
+	for _, fn := range p.ModFns {
+		pk := core.FuncPkg(fn)
+		if pk == nil || core.RelPkg(pk.Path()) != "storage/fsstore" || len(fn.Blocks) == 0 || fn.Synthetic != "" {
+			continue
+		}
+		renames := false
+		for _, ci := range core.Calls(fn) {
+			if core.IsPkgFunc(ci, "os", "Rename") {
+				renames = true
+			}
+		}
+		if !renames {
+			continue
+		}
+		n := 0
+		for _, ci := range core.Calls(fn) {
+			if !core.IsPkgFunc(ci, "os", "IsExist") {
+				continue
+			}
+			n++
+			other := ""
+			for w := range core.BackSlice(ci.Common().Args[0], core.SliceOpts{Local: true}) {
+				if cl, ok := w.(*ssa.Call); ok && !core.IsPkgFunc(cl, "os", "Rename") {
+					if o := core.CalleeObj(cl); o != nil {
+						other = o.Name()
+					} else {
+						other = "a call"
+					}
+				}
+			}
+			c.Check(other == "", fmt.Sprintf("%s#exists-test%d", core.FuncKey(fn), n), p.Pos(ci.Pos()), "the error tested with os.IsExist is the rename's", "the error tested with os.IsExist can be the result of "+other+": when two writers create one shard directory at the same time the loser's mkdir fails with EEXIST, this test takes it for \"content already stored\", removes the staged file and returns nil - Put reported success and the key is absent")
+		}
+	}
+
+	c.Rule("C17.putstores", putStoresText, 2)
+	checkPutStores(c, []struct{ rel, typ string }{{"storage/memstore", "Store"}, {"linking/cid", "Memory"}})
+
 	c.Rule("C17.noretain", "memstore.Store and cidlink.Memory never place a caller-provided slice into their bag (the stored value derives from a fresh make/buffer of the store's own), and Get returns a fresh copy, not the stored slice", 3)
 	for _, spec := range []struct{ rel, typ string }{{"storage/memstore", "Store"}, {"linking/cid", "Memory"}} {
 		for _, fn := range p.ModFns {
@@ -1347,4 +1426,57 @@ func (f *fsFacts) isCapturedOpen(rg *core.Region, v ssa.Value, open *ssa.Call) b
 		}
 	}
 	return false
+}
+
+const putStoresText = "a put that reports success has stored: in memstore.Store and cidlink.Memory, every function (or commit closure) that places a value into the store's bag returns a nil error only on a path that passed the placement - or found the key present already (the comma-ok read of the bag) - there is no way out that says \"stored\" and stored nothing (a block kind the store decides to answer from somewhere else, a size it does not want)"
+
+// checkPutStores is shared by C17 (a successful put is readable) and C05 (what was stored loads back).
+func checkPutStores(c *core.Ctx, specs []struct{ rel, typ string }) {
+	p := c.P
+	for _, spec := range specs {
+		for _, fn := range p.ModFns {
+			pk := core.FuncPkg(fn)
+			if pk == nil || core.RelPkg(pk.Path()) != spec.rel || len(fn.Blocks) == 0 || fn.Synthetic != "" {
+				continue
+			}
+			var puts []ssa.Instruction
+			core.Instrs(fn, func(in ssa.Instruction) {
+				if mu, ok := in.(*ssa.MapUpdate); ok && core.IsFieldRef(mu.Map, spec.typ, "Bag") {
+					puts = append(puts, in)
+				}
+			})
+			errIdx := core.ErrResultIndex(fn)
+			if len(puts) == 0 || errIdx < 0 {
+				continue
+			}
+			isPut := func(in ssa.Instruction) bool {
+				for _, q := range puts {
+					if in == q {
+						return true
+					}
+				}
+				return false
+			}
+			present := core.BoolEdgesWhere(fn, func(v ssa.Value) bool {
+				e, ok := core.Strip(v).(*ssa.Extract)
+				if !ok || e.Index != 1 {
+					return false
+				}
+				lk, ok := e.Tuple.(*ssa.Lookup)
+				return ok && lk.CommaOk && core.IsFieldRef(lk.X, spec.typ, "Bag")
+			}, true)
+			bad := false
+			var wp []string
+			pos := fn.Pos()
+			for _, ret := range core.Returns(fn) {
+				if core.ResultNilness(ret, errIdx) == core.NonNil {
+					continue
+				}
+				if path, reached := core.Reach(fn, nil, successReturn(ret, errIdx), present, isPut); reached {
+					bad, wp, pos = true, p.Witness(path), ret.Pos()
+				}
+			}
+			c.Check(!bad, core.FuncKey(fn)+"#success-only-after-placement", p.Pos(pos), "success is reported only after the value was placed (or was there already)", "the function can return a nil error without having placed the value into the bag and without having found the key present: the put (or commit) reports success and a later get / has / load of that key finds nothing", wp...)
+		}
+	}
 }
